@@ -1,7 +1,7 @@
 (* C02 — All validity accounting interfaces agree, at every point in a map's history.
    Statements only; proofs in AccountProofs.v (on top of the C01/C04 development). *)
 From Coq Require Import QArith.
-From HS Require Import Prelude Cov Map Spec Params AtFold MapProofs UpdateProofs HistoryProofs LayoutProofs AccountProofs Exec ExecProofs.
+From HS Require Import Prelude Cov Map Spec Ops Spec2 Params AtFold MapProofs UpdateProofs HistoryProofs LayoutProofs AccountProofs OpsProofs RebuildProofs FracdetProofs Exec ExecProofs.
 Open Scope Z_scope.
 
 Section C02.
@@ -43,6 +43,25 @@ Theorem C02_cache_never_stale :
     snd (n_valid V (p_valid P) m') = d_n_valid V (p_valid P) (abs V (p_dv P) m').
 Proof. exact (cache_history P). Qed.
 
+(* coverage_map[c] * nfine = the number of valid pixels of coverage pixel c, for every block
+   order (after fix F26) *)
+Theorem C02_coverage_map_counts_the_valid_pixels :
+  forall (m : smap V) c, wf P m -> 0 <= c < ncov V m ->
+    znth 0 (coverage_counts V (p_valid P) m) c = d_cov_count V (p_valid P) (p_dv P) (abs V (p_dv P) m) c.
+Proof. exact (coverage_counts_spec P). Qed.
+
+(* fracdet_map(n)[q] * children = the number of valid children of q, at every permitted
+   resolution and for every block order; the fracdet map is itself a well-formed map whose valid
+   pixels are those with a positive count *)
+Theorem C02_fracdet_counts_the_valid_children :
+  forall (m : smap V) r q, wf P m -> 0 < r -> nfine m mod r = 0 -> 0 <= q < npix V m / r ->
+    read Z 0 (fracdet_map P m r) q = d_group_count V (p_valid P) (p_dv P) (abs V (p_dv P) m) r q.
+Proof. exact (fracdet_read P). Qed.
+
+Theorem C02_fracdet_map_is_well_formed :
+  forall (m : smap V) r, wf P m -> 0 < r -> nfine m mod r = 0 -> wf count_params (fracdet_map P m r).
+Proof. exact (fracdet_wf P). Qed.
+
 End C02.
 
 Example C02_hypotheses_satisfiable :
@@ -57,4 +76,7 @@ Print Assumptions C02_valid_pixels_is_the_valid_set.
 Print Assumptions C02_count_is_dense_count.
 Print Assumptions C02_valid_pixel_is_covered.
 Print Assumptions C02_cache_never_stale.
+Print Assumptions C02_coverage_map_counts_the_valid_pixels.
+Print Assumptions C02_fracdet_counts_the_valid_children.
+Print Assumptions C02_fracdet_map_is_well_formed.
 Print Assumptions C02_hypotheses_satisfiable.
